@@ -147,7 +147,8 @@ FitRejected(o, d) ==                   \* invalid training data: ValueError, sta
 (* ---- queries ------------------------------------------------------------------------------ *)
 Query(o, m) ==
   /\ On("Query") /\ life[o] = "fitted"
-  /\ out' = <<"value", m, par[o]>>     \* a pure function of the fitted behaviour
+  \* a pure function of the fitted behaviour - except the randomised CDF integrator, whose value also depends on the generator
+  /\ out' = IF QueryDraws /\ m = "cdf" THEN <<"value", m, par[o], g>> ELSE <<"value", m, par[o]>>
   /\ g'   = IF QueryDraws /\ m = "cdf" THEN Adv(g, <<"qry", par[o]>>) ELSE g
   /\ UNCHANGED <<life, cfg, par, rng, art>>
   /\ Log([e |-> "Query", o |-> o, m |-> m])
